@@ -22,8 +22,11 @@ FLOAT_KINDS = {'dot', 'cross', 'vmul', 'vsum', 'vmean', 'transpose', 'mmul', 'mv
 FLOAT_TOL = 1e-9
 STATS = {}
 PARTIAL = [
-    "matrixDeterminant_eq_det_partial: `matrix_determinant = Matrix.det` is proved under the hypothesis that Doolittle on the row-permuted "
-    "matrix meets no zero pivot; without it the code still returns a number (0), wrong for non-singular inputs (open finding F-16b, refuted in Lean on the witness)",
+    "matrix_determinant = Matrix.det is NOT a theorem for all non-singular inputs (open finding F-16b, refuted in Lean on the witness); what is proved is the exact region: "
+    "matrixDeterminant_eq_det_iff (correct iff Doolittle on the row-permuted matrix meets no zero pivot or the matrix is singular - after a zero pivot the code returns 0), "
+    "doolittle_pivots_iff_minors (no zero pivot iff all leading principal minors non-zero), matrixDeterminant_eq_det_iff_minors (correct iff singular or no leading principal minor "
+    "of P*m of a size 2..n-1 vanishes), hence complete for sizes <= 2 (matrixDeterminant_eq_det_le_two) and an explicit 2x2-minor criterion for size 3; "
+    "matrixDeterminant_eq_det_partial (the 'no zero pivot' form) is kept under its name because the property as worded fails on the code",
     "shape guards: every theorem about a list-level routine (lu_solve, lu_factor, matrix_pivot, matrix_inverse, matrix_determinant, matrix_multiply, the history theorems) "
     "carries the decidable guard under which the implementation does not raise ValueError/IndexError for the shape of its input (isSquare, luSolveOk, luFactorOk, "
     "matrixInverseOk, matrixMultiplyOk, matrixVectorOk, admissible); the guards are not tested inside the model functions (which pad with 0), they are hypotheses, and "
@@ -32,9 +35,12 @@ PARTIAL = [
     "right-hand sides without columns, matrix_pivot on some ragged inputs return in Python (and in the model, same values) although the guard fails "
     "(guards_sufficient_not_necessary) - the driver would answer ERR there, the generators do not produce these shapes; nothing is claimed outside the guards; "
     "lu_solve with fewer right-hand-side rows than len(A) is accepted by guard and code but every theorem assumes len(b) = len(A)",
-    "collocation matrices have non-zero Doolittle pivots (total positivity): not proved; `luSolve_returns` takes the non-zero pivots as hypothesis, "
-    "the oracle checks that lu_solve returns on generated interpolation matrices",
-    "matrixPivot max-pivot property (|mp[j][j]| >= |mp[i][j]|, i > j) is checked by the oracle only (it is not part of the property text)",
+    "collocation matrices have non-zero Doolittle pivots: proved for degree 1 only (collocation_degree_one_identity: the matrix is the identity for strictly increasing "
+    "parameters, curve and surface directions; interpolateCurve_degree_one_returns: interpolate_curve(.,1) returns the data points); for degree >= 2 total positivity / "
+    "Schoenberg-Whitney is NOT proved - collocation_luSolve_returns_of_minors states the hypothesis explicitly (all leading principal minors of the collocation matrix non-zero, "
+    "equivalent to 'no zero pivot' by doolittle_pivots_iff_minors), only the positive diagonal is a theorem (C11), and the oracle checks that lu_solve returns on generated "
+    "interpolation matrices; that interpolate_surface of degree 1 returns as a whole call is not stated (only: both matrices are the identity and lu_solve(identity, b) returns b)",
+    "strict diagonal dominance: both readings are theorems (luSolve_sdd rows, luSolve_sdd_col columns); weak / irreducible dominance is not covered",
     "vector_magnitude / vector_normalize: the square root is an input of the model (normSq is modelled and proved equal to dot(v,v)); the oracle compares with math.sqrt",
     "frange, vector_angle_between, triangle_normal/center, convex_hull: not part of this check (float-only or generator semantics)",
     "LRU eviction order of functools.lru_cache is modelled (most recent first, 16 entries); the history theorem holds for every eviction policy that only drops entries",
